@@ -724,6 +724,58 @@ def call(I, fr, name, fname, k, args, depth):
         if meth_ == "partial_cmp":
             return some(ordv)
         return int({"lt": c_ < 0, "le": c_ <= 0, "gt": c_ > 0, "ge": c_ >= 0}[meth_])
+    if re.search(r"^<std::vec::Vec<T, A> as std::cmp::(Ord|PartialOrd<std::vec::Vec<T, A2>>|PartialOrd)>::(cmp|partial_cmp)$", name) or re.search(r"^<\[T\] as std::cmp::(Ord|PartialOrd)>::(cmp|partial_cmp)$", name) or name.endswith("slice::cmp::<impl std::cmp::Ord for [T]>::cmp") or name.endswith("slice::cmp::<impl std::cmp::PartialOrd for [T]>::partial_cmp"):
+        la, lb = as_slice(I, args[0]), as_slice(I, args[1])
+        res_ = 0
+        for i_ in range(min(la.len, lb.len)):
+            xa, xb = la.heap[la.start + i_], lb.heap[lb.start + i_]
+            for _ in range(3):
+                if isinstance(xa, Ref):
+                    xa = deref(I, xa)
+                if isinstance(xb, Ref):
+                    xb = deref(I, xb)
+            if isinstance(xa, (StrBuf, Slice)) and isinstance(xb, (StrBuf, Slice)):
+                sa_, sb_ = as_slice(I, xa), as_slice(I, xb)
+                ka, kb = bytes(sa_.heap[sa_.start:sa_.start + sa_.len]), bytes(sb_.heap[sb_.start:sb_.start + sb_.len])
+            elif isinstance(xa, (int, float)) and isinstance(xb, (int, float)):
+                ka, kb = xa, xb
+            else:
+                raise Unsupported("lexicographic comparison of %r" % (xa,))
+            if ka != kb:
+                res_ = -1 if ka < kb else 1
+                break
+        if res_ == 0:
+            res_ = (la.len > lb.len) - (la.len < lb.len)
+        ordv = Adt("core::cmp::Ordering", res_ + 1, ["Less", "Equal", "Greater"][res_ + 1], [])
+        return ordv if name.endswith("::cmp") else some(ordv)
+    if name.endswith("Iterator>::find_map") or name.endswith("Iterator::find_map"):
+        while True:
+            r_ = iter_next(I, args[0], depth)
+            if r_.vi == 0:
+                return r_
+            o_ = call_closure(I, args[1], [r_.fields[0]], depth)
+            if o_.vi == 1:
+                return o_
+    if name.endswith("Iterator>::try_fold") or name.endswith("Iterator::try_fold"):
+        acc = args[1]
+        while True:
+            r_ = iter_next(I, args[0], depth)
+            if r_.vi == 0:
+                break
+            cf = call_closure(I, args[2], [acc, r_.fields[0]], depth)
+            # R: Try — Result / Option / ControlFlow
+            if isinstance(cf, Adt) and (cf.vname in ("Err", "None", "Break")):
+                return cf
+            acc = cf.fields[0] if isinstance(cf, Adt) and cf.fields else acc
+        g_ = k.get("g") or []
+        rty = g_[-1] if g_ else ""
+        if "Result<" in rty:
+            return ok(acc)
+        if "Option<" in rty:
+            return some(acc)
+        if "ControlFlow<" in rty:
+            return cf_continue(acc)
+        raise Unsupported("try_fold returning %s" % rty)
     if name.endswith("cmp::Ordering::reverse"):
         o_ = args[0]
         return Adt("core::cmp::Ordering", 2 - o_.vi, ["Less", "Equal", "Greater"][2 - o_.vi], [])
@@ -1155,6 +1207,11 @@ def call(I, fr, name, fname, k, args, depth):
                     return some(prev)
                 m.d[k_] = [args[1], args[2]]
                 return NONE()
+            if meth == "index" or meth == "index_mut":
+                k_ = kf(args[1])
+                if k_ not in m.d:
+                    raise Panic("IndexMap: key not found")
+                return Ref(_HeapFrame(m.d[k_]), 0, [("i", 1)])
             if meth in ("get", "get_mut"):
                 k_ = kf(args[1])
                 if k_ not in m.d:
